@@ -703,4 +703,203 @@ def dceWithGids (f : Func) : List (Block × List (Instr × Nat)) :=
 
 def runPasses (f : Func) : Func := dce (nopElim (redundantPhiElim (deadBlockElim f)))
 
+/-! ### well-formed functions
+
+`wellFormed` is a decidable check of what the proofs about the passes need: strict SSA with definitions that
+dominate their uses (through a certificate: the values available at the entry of each block, and a rank that
+grows along dominance), matching block-argument arities, and the little typing that the shift rule needs.
+The certificate is computed from the function (`computeCert`); the check does not depend on how. -/
+
+/-- resolved form of an alias table: the target of an entry is never a key -/
+def AliasNF (al : List (Val × Val)) : Prop := ∀ k t, (k, t) ∈ al → aliasGet al t = none
+
+def UniqueIds (f : Func) : Prop := (f.blocks.map (·.id)).Nodup
+
+structure Cert where
+  /-- values available at the entry of a block (before its parameters) on every path -/
+  avail : BlockId → List Val
+  /-- grows from a definition to every definition it is available at -/
+  rank : Val → Nat
+  /-- position of the block in the reverse post-order -/
+  bidx : BlockId → Nat
+  /-- more than the length of any block -/
+  M : Nat
+  /-- declared type of a value -/
+  cty : Val → Ty
+  /-- the parameters a block had originally: a parameter removed by `removeParam` stays defined at the entry of
+  its block, through its alias -/
+  pdefs : BlockId → List Val
+
+/-- the results of an instruction with their types -/
+def Instr.typedResults : Instr → List (Val × Ty)
+  | .iconst r ty _ => [(r, ty)]
+  | .bin _ r ty _ _ => [(r, ty)]
+  | .icmp r _ _ _ _ => [(r, .i32)]
+  | .select r ty _ _ _ => [(r, ty)]
+  | .un _ r ty _ => [(r, ty)]
+  | .load r ty _ _ => [(r, ty)]
+  | .call _ _ rs _ => rs
+  | .div _ r ty _ _ _ => [(r, ty)]
+  | _ => []
+
+def isShift (op : BinOp) : Prop := op = .ishl ∨ op = .sshr ∨ op = .ushr
+
+instance (op : BinOp) : Decidable (isShift op) := by unfold isShift; infer_instance
+
+/-- the check of one instruction at a point where the values `V` are available -/
+def InstrOK (c : Cert) (f : Func) (B : Block) (V : List Val) (i : Instr) : Prop :=
+  -- every operand resolves like an available value
+  (∀ o ∈ i.operands, ∃ v ∈ V, res f.alias o = res f.alias v) ∧
+  -- a result that has an alias resolves like an available value
+  (∀ r ∈ i.results, res f.alias r = r ∨ ∃ v ∈ V, res f.alias r = res f.alias v) ∧
+  -- the rank of a result is above everything available, inside the band of the block
+  (∀ r ∈ i.results, (∀ v ∈ V, c.rank v < c.rank r) ∧ c.rank r < (c.bidx B.id + 1) * c.M) ∧
+  (∀ p ∈ i.typedResults, c.cty p.1 = p.2) ∧
+  (match i with
+   | .bin op _ ty x _ => isShift op → c.cty x = ty
+   | _ => True) ∧
+  (match i.branch? with
+   | some (t, as) =>
+     match f.findBlock t with
+     | some T => as.length = T.params.length ∧ (∀ v ∈ c.avail t, v ∈ V) ∧
+         (∀ p ∈ as.zip T.params, c.cty p.1 = p.2.2) ∧
+         -- a removed parameter of the target resolves like a value available here
+         (∀ q ∈ c.pdefs t, q ∉ T.params.map (·.1) → ∃ v ∈ V, res f.alias q = res f.alias v)
+     | none => False
+   | none => True)
+
+def BodyOK (c : Cert) (f : Func) (B : Block) : List Val → List Instr → Prop
+  | _, [] => True
+  | V, i :: is => InstrOK c f B V i ∧ BodyOK c f B (V ++ i.results) is
+
+def BlockOK (c : Cert) (f : Func) (B : Block) : Prop :=
+  (∀ p ∈ B.params, p.1 ∈ c.pdefs B.id ∧ c.cty p.1 = p.2 ∧ aliasGet f.alias p.1 = none) ∧
+  (∀ q ∈ c.pdefs B.id, c.rank q = c.bidx B.id * c.M) ∧
+  (∀ v ∈ c.avail B.id, c.rank v < c.bidx B.id * c.M) ∧
+  BodyOK c f B (c.avail B.id ++ c.pdefs B.id) B.instrs ∧
+  -- a block other than the entry has a predecessor that comes before it in the order
+  (B.id ≠ f.entry → ∃ P ∈ f.blocks, P.invalid = false ∧ c.bidx P.id < c.bidx B.id ∧
+      ∃ i ∈ P.instrs, i.branch?.map (·.1) = some B.id)
+
+/-- all definitions of the function: block parameters and instruction results, of all blocks of the pool -/
+def Func.allDefs (f : Func) : List Val :=
+  f.blocks.flatMap (fun B => B.params.map (·.1) ++ B.instrs.flatMap (·.results))
+
+/-- the result of a constant has no alias -/
+def ConstNoKey (al : List (Val × Val)) : Instr → Prop
+  | .iconst r _ _ => aliasGet al r = none
+  | _ => True
+
+instance (al : List (Val × Val)) (i : Instr) : Decidable (ConstNoKey al i) := by
+  cases i <;> unfold ConstNoKey <;> infer_instance
+
+structure WF (c : Cert) (f : Func) : Prop where
+  ids : UniqueIds f
+  nf : ∀ e ∈ f.alias, aliasGet f.alias e.2 = none
+  alRank : ∀ e ∈ f.alias, c.rank e.2 < c.rank e.1
+  alTy : ∀ e ∈ f.alias, c.cty e.1 = c.cty e.2
+  /-- constants have no alias -/
+  constKey : ∀ i ∈ f.allInstrs, ConstNoKey f.alias i
+  /-- every value is defined once -/
+  uniq : f.allDefs.Nodup
+  entryAvail : c.avail f.entry = []
+  blocks : ∀ B ∈ f.blocks, B.invalid = false → BlockOK c f B
+
+instance (c : Cert) (f : Func) (B : Block) (V : List Val) (i : Instr) : Decidable (InstrOK c f B V i) := by
+  unfold InstrOK
+  refine @instDecidableAnd _ _ inferInstance (@instDecidableAnd _ _ inferInstance
+    (@instDecidableAnd _ _ inferInstance (@instDecidableAnd _ _ inferInstance (@instDecidableAnd _ _ ?_ ?_))))
+  · cases i <;> infer_instance
+  · cases i.branch? with
+    | none => infer_instance
+    | some p =>
+      obtain ⟨t, as⟩ := p
+      simp only []
+      cases f.findBlock t <;> infer_instance
+
+def BodyOK.dec (c : Cert) (f : Func) (B : Block) : (V : List Val) → (is : List Instr) → Decidable (BodyOK c f B V is)
+  | _, [] => isTrue trivial
+  | V, i :: is => @instDecidableAnd _ _ inferInstance (BodyOK.dec c f B (V ++ i.results) is)
+
+instance (c : Cert) (f : Func) (B : Block) (V : List Val) (is : List Instr) : Decidable (BodyOK c f B V is) :=
+  BodyOK.dec c f B V is
+
+instance (c : Cert) (f : Func) (B : Block) : Decidable (BlockOK c f B) := by
+  unfold BlockOK; infer_instance
+
+instance (f : Func) : Decidable (UniqueIds f) := by unfold UniqueIds; infer_instance
+
+instance (c : Cert) (f : Func) : Decidable (WF c f) :=
+  decidable_of_iff
+    (UniqueIds f ∧ (∀ e ∈ f.alias, aliasGet f.alias e.2 = none) ∧ (∀ e ∈ f.alias, c.rank e.2 < c.rank e.1) ∧
+      (∀ e ∈ f.alias, c.cty e.1 = c.cty e.2) ∧
+      (∀ i ∈ f.allInstrs, ConstNoKey f.alias i) ∧
+      f.allDefs.Nodup ∧ c.avail f.entry = [] ∧ (∀ B ∈ f.blocks, B.invalid = false → BlockOK c f B))
+    ⟨fun ⟨a, b, c', d, e, g, h, i⟩ => ⟨a, b, c', d, e, g, h, i⟩,
+     fun ⟨a, b, c', d, e, g, h, i⟩ => ⟨a, b, c', d, e, g, h, i⟩⟩
+
+/-! #### the certificate -/
+
+def assocD {α} (l : List (Nat × α)) (d : α) (k : Nat) : α :=
+  match l with
+  | [] => d
+  | (k', a) :: rest => if k' = k then a else assocD rest d k
+
+def indexOfD (l : List Nat) (x : Nat) : Nat :=
+  match l with
+  | [] => 0
+  | y :: ys => if y = x then 0 else indexOfD ys x + 1
+
+/-- values available just before the `k`-th instruction of `B`, given the availability at its entry -/
+def availBefore (A : List Val) (B : Block) (k : Nat) : List Val :=
+  A ++ B.params.map (·.1) ++ (B.instrs.take k).flatMap (·.results)
+
+/-- one sweep of the availability analysis over the blocks `order` (the entry keeps `[]`): what is available at
+the entry of a block is what is available at every branch to it from a valid block -/
+def availSweep (f : Func) (univ : List Val) (order : List BlockId) (A : List (BlockId × List Val)) :
+    List (BlockId × List Val) :=
+  order.foldl (fun A b =>
+    if b = f.entry then A
+    else
+      let ins : List (List Val) := f.validBlocks.flatMap (fun P =>
+        (P.instrs.zipIdx).filterMap (fun (i, k) =>
+          match i.branch? with
+          | some (t, _) => if t = b then some (availBefore (assocD A univ P.id) P k) else none
+          | none => none))
+      (b, univ.filter (fun v => ins.all (fun s => v ∈ s))) :: A.filter (fun e => e.1 ≠ b)) A
+
+def availLoop (f : Func) (univ : List Val) (order : List BlockId) :
+    Nat → List (BlockId × List Val) → List (BlockId × List Val)
+  | 0, A => A
+  | n + 1, A =>
+    let A' := availSweep f univ order A
+    if order.all (fun b => (assocD A' univ b).length = (assocD A univ b).length) then A' else availLoop f univ order n A'
+
+/-- The certificate of a function: availability by iteration from "everything" downwards, ranks from the
+reverse post-order and the position in the block, declared types from the definitions. -/
+def computeCert (f : Func) : Cert :=
+  let order := rpo f
+  let bs := f.validBlocks
+  let M := (bs.map (·.instrs.length)).foldl max 0 + 2
+  let bidx := fun b => indexOfD order b
+  let univ := bs.flatMap (fun B => B.params.map (·.1) ++ B.instrs.flatMap (·.results))
+  let A := availLoop f univ order (bs.length + 2) [(f.entry, [])]
+  let ranks : List (Nat × Nat) := bs.flatMap (fun B =>
+    B.params.map (fun p => (p.1, bidx B.id * M)) ++
+    (B.instrs.zipIdx).flatMap (fun (i, k) => i.results.map (fun r => (r, bidx B.id * M + k + 1))))
+  let tys : List (Nat × Ty) := bs.flatMap (fun B => B.params ++ B.instrs.flatMap (·.typedResults))
+  { avail := fun b => if b = f.entry then [] else assocD A univ b,
+    rank := assocD ranks 0,
+    bidx := bidx,
+    M := M,
+    cty := assocD tys .i64,
+    pdefs := fun b => match f.findBlock b with
+      | some B => B.params.map (·.1)
+      | none => [] }
+
+/-- The reachable part of the function is well-formed SSA (the check is made after dead-block elimination,
+which only marks blocks). -/
+def wellFormed (f : Func) : Bool :=
+  decide (WF (computeCert (deadBlockElim f)) (deadBlockElim f))
+
 end Wz.Model.SsaPass
